@@ -550,7 +550,10 @@ def dataclass_field_shape(f):
     elif f.default is None:
         d = "None"
     else:
-        d = [f.default if isinstance(f.default, str) else repr(f.default)]
+        import enum
+
+        v = f.default.value if isinstance(f.default, enum.Enum) else f.default
+        d = [v if isinstance(v, str) else repr(v)]
     return {"init": f.init, "default": d}
 
 
@@ -881,6 +884,91 @@ def ns_doc(ctx, decls, present):
 
 
 # --------------------------------------------------------------------------
+# DTD attribute declarations  (model: lean/XsdataModel/Gen/DtdAttrs.lean)
+#   decl := {"default": "required"|"implied"|"fixed"|"none", "value": str|None, "type": "CDATA"|"NMTOKEN"|"ID"|"enum"}
+# --------------------------------------------------------------------------
+def real_dtd_attr(decls):
+    from xsdata.codegen.mappers.dtd import DtdMapper
+    from xsdata.codegen.models import Class
+    from xsdata.models.dtd import DtdAttribute, DtdAttributeDefault, DtdAttributeType
+    from xsdata.models.enums import Tag
+
+    out = []
+    for d in decls:
+        target = Class(qname="r", tag=Tag.ELEMENT, location="mem")
+        a = DtdAttribute(name="x", prefix=None, type=DtdAttributeType.CDATA, default=DtdAttributeDefault(d["default"]),
+                         default_value=d["value"], values=[])
+        DtdMapper.build_attribute(target, a)
+        out.append(export_gattr(target.attrs[0]))
+    return out
+
+
+def dtd_attlist(decls):
+    parts = []
+    for i, d in enumerate(decls):
+        tp = {"enum": "(x|y|z)"}.get(d.get("type", "CDATA"), d.get("type", "CDATA"))
+        kw = {"required": "#REQUIRED", "implied": "#IMPLIED", "fixed": "#FIXED ", "none": ""}[d["default"]]
+        val = f'"{d["value"]}"' if d["value"] is not None else ""
+        parts.append(f"d{i} {tp} {kw}{val}")
+    return "<!ATTLIST r " + "  ".join(parts) + ">\n" if parts else ""
+
+
+def gen_dtd_attr_decl(rng, grammatical=True):
+    k = rng.choice(["required", "implied", "fixed", "none"])
+    tp = rng.choice(["CDATA", "CDATA", "NMTOKEN", "enum"])
+    v = None
+    if k in ("fixed", "none") or (not grammatical and rng.random() < 0.3):
+        v = rng.choice(["x", "y"]) if tp == "enum" else rng.choice(["D", "x", "v1"])
+    if not grammatical and rng.random() < 0.2:
+        v = None
+    return {"default": k, "value": v, "type": tp}
+
+
+# --------------------------------------------------------------------------
+# DTD element declarations  (model: lean/XsdataModel/Gen/DtdElem.lean)
+# --------------------------------------------------------------------------
+def real_dtd_elem(dtd_text: str):
+    """DtdParser + DtdMapper.build_class + the FLATTEN handlers that touch the attrs of a DTD class:
+    the element type and content tree lxml reports, and the element fields of the class"""
+    from xsdata.codegen.handlers import ProcessMixedContentClass
+    from xsdata.codegen.handlers.calculate_attribute_paths import CalculateAttributePaths
+    from xsdata.codegen.handlers.merge_attributes import MergeAttributes
+    from xsdata.codegen.handlers.update_attributes_effective_choice import UpdateAttributesEffectiveChoice
+    from xsdata.codegen.mappers.dtd import DtdMapper
+    from xsdata.codegen.parsers.dtd import DtdParser
+    from xsdata.models.dtd import DtdContentType
+
+    dtd = DtdParser.parse(dtd_text.encode(), location="mem.dtd")
+    el = next(e for e in dtd.elements if e.name == "r")
+
+    def conv(c):
+        if c is None:
+            return None
+        o = c.occur.value
+        if c.type == DtdContentType.PCDATA:
+            return {"pcdata": o}
+        if c.type == DtdContentType.ELEMENT:
+            return {"element": [c.name, o]}
+        return {("seq" if c.type == DtdContentType.SEQ else "or"): [o, conv(c.left), conv(c.right)]}
+
+    args = {"type": el.type.name.lower(), "content": conv(el.content)}
+    cls = DtdMapper.build_class(el, "mem.dtd")
+    CalculateAttributePaths().process(cls)
+    UpdateAttributesEffectiveChoice().process(cls)
+    MergeAttributes().process(cls)
+    ProcessMixedContentClass().process(cls)
+    wild = [a for a in cls.attrs if a.is_wildcard]
+    if wild:
+        w = wild[0]
+        assert cls.mixed and w.mixed and w.restrictions.min_occurs == 0 and w.restrictions.max_occurs == MAXSIZE and len(cls.attrs) == 1
+        out = {"mixed": [c.name for c in w.choices]}
+    else:
+        assert not cls.extensions, "extension left on a DTD class"
+        out = {"plain": [[a.name, a.restrictions.min_occurs, a.restrictions.max_occurs] for a in cls.attrs if not a.is_attribute]}
+    return args, out
+
+
+# --------------------------------------------------------------------------
 # real sites
 # --------------------------------------------------------------------------
 def renumber(sites):
@@ -994,14 +1082,36 @@ def dtd_text_of(c):
     return "(" + sep.join(dtd_text_of(k) for k in c["c"]) + ")" + OCC[c["o"]]
 
 
-def dtd_doc(c, names=None):
+CHILD_DECL = {"pcdata": "(#PCDATA)", "empty": "EMPTY", "any": "ANY", "mixed": "(#PCDATA|zz)*", "elems": "(zz,zz?)"}
+
+
+def dtd_doc(c, names=None, kinds=None):
+    """`kinds`: name -> declaration of that child element (default `(#PCDATA)`): EMPTY, ANY, mixed content
+    `(#PCDATA|zz)*`, element content `(zz,zz?)`; `zz` is declared `(#PCDATA)`"""
     body = dtd_text_of(c)
     if "n" in c:
         body = "(" + body + ")"
     out = f"<!ELEMENT r {body}>\n"
+    kinds = kinds or {}
     for n in sorted(set(names or dtd_names(c))):
-        out += f"<!ELEMENT {n} (#PCDATA)>\n"
+        out += f"<!ELEMENT {n} {CHILD_DECL[kinds.get(n, 'pcdata')]}>\n"
+    if any(k in ("any", "mixed", "elems") for k in kinds.values()):
+        out += "<!ELEMENT zz (#PCDATA)>\n"
     return out
+
+
+def dtd_child_xml(n, i, kinds=None):
+    """the i-th child of a document: content by the kind of its declaration"""
+    k = (kinds or {}).get(n, "pcdata")
+    if k == "pcdata":
+        return f"<{n}>v{i}</{n}>"
+    if k == "empty":
+        return f"<{n}/>"
+    if k == "elems":
+        return f"<{n}><zz>e{i}</zz></{n}>" if i % 2 else f"<{n}><zz>e{i}</zz><zz>f{i}</zz></{n}>"
+    # any / mixed: text and declared elements interleaved
+    variants = [f"<{n}/>", f"<{n}>t{i}</{n}>", f"<{n}>t{i}<zz>q{i}</zz>u{i}</{n}>", f"<{n}><zz>q{i}</zz><zz>r{i}</zz>u{i}</{n}>"]
+    return variants[i % len(variants)]
 
 
 def dtd_names(c):
